@@ -230,6 +230,107 @@ static void runOne(const std::string &c, const std::function<void(const std::str
     fflush(stdout);
 }
 
+// Batch variant (math / pow modes: the cases are independent of process-global state): the child runs cases until
+// it dies; the parent restarts behind the dead case.  One line per case, same token protocol.
+static void runBatch(const std::vector<std::string> &cases, const std::function<void(const std::string &)> &fn, unsigned seconds,
+                     const std::string &errPath)
+{
+    size_t next = 0;
+    const size_t n = cases.size();
+    while (next < n) {
+        int fds[2];
+        if (pipe(fds) != 0) {
+            perror("pipe");
+            exit(2);
+        }
+        fflush(stdout);
+        pid_t pid = fork();
+        if (pid == 0) {
+            close(fds[0]);
+            struct rlimit rl;
+            rl.rlim_cur = rl.rlim_max = 64UL * 1024 * 1024;
+            setrlimit(RLIMIT_STACK, &rl);
+            int efd = open(errPath.c_str(), O_WRONLY | O_CREAT | O_TRUNC, 0600);
+            if (efd >= 0) {
+                dup2(efd, 2);
+                close(efd);
+            }
+            g_out = fdopen(fds[1], "w");
+            for (size_t i = next; i < n; ++i) {
+                alarm(seconds);
+                try {
+                    fn(cases[i]);
+                } catch (const std::exception &e) {
+                    tok(std::string("THROW(") + typeid(e).name() + ")");
+                } catch (...) {
+                    tok("THROW(unknown)");
+                }
+                alarm(0);
+                tok(" END\n");
+            }
+            fclose(g_out);
+            _exit(0);
+        }
+        close(fds[1]);
+        std::string buf;
+        char tmp[65536];
+        ssize_t k;
+        while ((k = read(fds[0], tmp, sizeof tmp)) > 0) {
+            buf.append(tmp, size_t(k));
+        }
+        close(fds[0]);
+        int status = 0;
+        waitpid(pid, &status, 0);
+        size_t start = 0;
+        while (true) {
+            size_t nl = buf.find('\n', start);
+            if (nl == std::string::npos) {
+                break;
+            }
+            std::string line = buf.substr(start, nl - start);
+            puts(line.c_str() + (line.size() && line[0] == ' ' ? 1 : 0));
+            ++next;
+            start = nl + 1;
+        }
+        if (next < n) {
+            std::string line = buf.substr(start);
+            if (WIFSIGNALED(status)) {
+                int sig = WTERMSIG(status);
+                line += (sig == SIGALRM) ? "TIMEOUT" : "CRASH(" + std::to_string(sig) + ")";
+            } else {
+                line += "CRASH(exit" + std::to_string(WEXITSTATUS(status)) + ")";
+            }
+            line += summariseReport(slurp(errPath));
+            for (auto &ch : line) {
+                if (ch == '\n' || ch == '\r') {
+                    ch = ' ';
+                }
+            }
+            puts(line.c_str() + (line.size() && line[0] == ' ' ? 1 : 0));
+            ++next;
+        }
+        fflush(stdout);
+    }
+}
+
+// one-off initialisations of the library (the MathML DTD is decompressed on first use) are done before forking
+static void warmUp()
+{
+    auto parser = libcellml::Parser::create(true);
+    auto model = parser->parseModel(
+        "<?xml version=\"1.0\" encoding=\"UTF-8\"?>\n<model xmlns=\"http://www.cellml.org/cellml/2.0#\" name=\"m\"><component name=\"c\">"
+        "<variable name=\"x\" units=\"dimensionless\"/><math xmlns=\"http://www.w3.org/1998/Math/MathML\" "
+        "xmlns:cellml=\"http://www.cellml.org/cellml/2.0#\"><apply><eq/><ci>x</ci><cn cellml:units=\"dimensionless\">1</cn></apply></math>"
+        "</component></model>");
+    auto validator = libcellml::Validator::create();
+    validator->validateModel(model);
+    auto analyser = libcellml::Analyser::create();
+    analyser->analyseModel(model);
+    auto g = libcellml::Generator::create();
+    g->setModel(analyser->model());
+    g->implementationCode();
+}
+
 // ------------------------------------------------------------------------------------------------ pipeline
 
 static const size_t MAX_UNITS_PAIRS = 10; // units-level queries between all pairs of the first 10 units
@@ -414,8 +515,9 @@ static void pipeCase(const std::string &c)
 static const char *MATH_HEAD =
     "<?xml version=\"1.0\" encoding=\"UTF-8\"?>\n<model xmlns=\"http://www.cellml.org/cellml/2.0#\" name=\"m\">"
     "<component name=\"c\">"
-    "<variable name=\"t\" units=\"dimensionless\"/><variable name=\"x\" units=\"dimensionless\"/>"
-    "<variable name=\"y\" units=\"dimensionless\"/><variable name=\"z\" units=\"dimensionless\"/>"
+    // t, y, z are initialised so that "x = f(t, y, z)" is a complete model and code is generated for it
+    "<variable name=\"t\" units=\"dimensionless\" initial_value=\"0\"/><variable name=\"x\" units=\"dimensionless\"/>"
+    "<variable name=\"y\" units=\"dimensionless\" initial_value=\"1\"/><variable name=\"z\" units=\"dimensionless\" initial_value=\"2\"/>"
     "<math xmlns=\"http://www.w3.org/1998/Math/MathML\" xmlns:cellml=\"http://www.cellml.org/cellml/2.0#\">";
 static const char *MATH_TAIL = "</math></component></model>\n";
 
@@ -443,9 +545,23 @@ static void mathCase(const std::string &hex)
             ++other;
         } else {
             ++structural;
+            using R = libcellml::Issue::ReferenceRule;
+            std::string n;
+            switch (is->referenceRule()) {
+            case R::MATH_MATHML: n = "MATH_MATHML"; break;
+            case R::MATH_CHILD: n = "MATH_CHILD"; break;
+            case R::MATH_ELEMENT: n = "MATH_ELEMENT"; break;
+            case R::MATH_CI_VARIABLE_REFERENCE: n = "MATH_CI_VARIABLE_REFERENCE"; break;
+            case R::MATH_CN_UNITS_ATTRIBUTE: n = "MATH_CN_UNITS_ATTRIBUTE"; break;
+            case R::MATH_CN_UNITS_ATTRIBUTE_REFERENCE: n = "MATH_CN_UNITS_ATTRIBUTE_REFERENCE"; break;
+            case R::MATH_CN_BASE10: n = "MATH_CN_BASE10"; break;
+            case R::MATH_CN_FORMAT: n = "MATH_CN_FORMAT"; break;
+            default: n = "OTHER" + std::to_string(int(is->referenceRule())); break;
+            }
+            rules += (rules.empty() ? "" : ",") + n;
         }
     }
-    tok("s" + std::to_string(structural) + "d" + std::to_string(dtd) + "o" + std::to_string(other));
+    tok("s" + std::to_string(structural) + "d" + std::to_string(dtd) + "o" + std::to_string(other) + ":" + (rules.empty() ? "-" : rules));
     if (parser->issueCount() == 0 && validator->issueCount() == 0) {
         stage("A");
         auto analyser = libcellml::Analyser::create();
@@ -589,8 +705,13 @@ int main(int argc, char **argv)
     if (getenv("C01_SECONDS") != nullptr) {
         seconds = unsigned(atoi(getenv("C01_SECONDS")));
     }
-    for (const auto &c : cases) {
-        runOne(c, fn, seconds, errPath);
+    warmUp();
+    if (mode == "math" || mode == "pow") {
+        runBatch(cases, fn, seconds, errPath);
+    } else {
+        for (const auto &c : cases) {
+            runOne(c, fn, seconds, errPath);
+        }
     }
     unlink(errPath.c_str());
     return 0;
